@@ -322,6 +322,14 @@ class MSession(ftpsim.Session):
             except Exception as e:
                 d["dpeer"] = type(e).__name__
         d["acquired"] = c.acquired
+        # per-socket objects (identity only): backend instance bound to THIS connection, per-connection throttle clones
+        pio = c.path_io
+        d["pio_own"] = getattr(pio, "connection", None) is c
+        d["ids"] = {"path_io": id(pio), "stream": id(c.command_connection), "extra_workers": id(c.extra_workers)}
+        thr = getattr(c.command_connection, "throttles", {})
+        for name in ("server_per_connection", "user_per_connection"):
+            if name in thr:
+                d["ids"]["throttle:" + name] = id(thr[name])
         return d
 
     # -- atoms
@@ -544,7 +552,7 @@ def server_fingerprint(server):
     return out
 
 
-PROBE_KEYS = ("user", "has_user", "logged", "cwd", "rnfr", "rest", "passive", "data", "workers", "type", "lport", "dpeer", "acquired")
+PROBE_KEYS = ("user", "has_user", "logged", "cwd", "rnfr", "rest", "passive", "data", "workers", "type", "lport", "dpeer", "acquired", "pio_own", "ids")
 
 
 def run_impl(n, schedule, cfg):
@@ -567,6 +575,9 @@ def run_impl(n, schedule, cfg):
             server.path_io_factory.factory = backend_factory(base, gate)
             if tmp:
                 gate.base = str(tmp)
+            if cfg.get("seg"):
+                k = int(cfg["seg"])
+                net.default_segmenter = lambda data: [data[x:x + k] for x in range(0, len(data), k)]
             await server.start("127.0.0.1", ftpsim.PORT)
             ss = []
             for i in range(n):
@@ -717,6 +728,16 @@ def oracle(n, dirs, schedule, cfg, res, solos):
             if p["data"] and p["dpeer"] not in res["own"][j]["ports"]:
                 bad.append(("c17-data-connection-of-another-session", f"after step of session {i} ({atom.get('verb', atom['k'])}): session {j} holds a data connection from port {p['dpeer']}, its client opened {res['own'][j]['ports']}", {"actor": i, "session": j}))
                 return bad
+            if not p["pio_own"]:
+                bad.append(("c17-backend-instance-not-bound-to-own-connection", f"after step of session {i}: path_io.connection of session {j} is not its Connection", {"actor": i, "session": j}))
+                return bad
+            for m in range(j):
+                q = after[m]
+                if q is not None:
+                    sharedk = [k for k in p["ids"] if k in q["ids"] and p["ids"][k] == q["ids"][k]]
+                    if sharedk:
+                        bad.append((f"c17-per-connection-object-shared-{sharedk[0].split(':')[0]}", f"after step of session {i}: sessions {m} and {j} share their {sharedk}", {"actor": i, "session": j}))
+                        return bad
             if p["passive"] and any(after[m] and after[m]["passive"] and after[m]["lport"] == p["lport"] for m in range(n) if m != j):
                 bad.append(("c17-listener-shared-with-another-session", f"after step of session {i}: session {j} holds listener {p['lport']} which another live session holds too", {"actor": i, "session": j}))
                 return bad
@@ -950,6 +971,8 @@ def gen_jobs(rng, thorough, budget=None):
             jobs.append(("command", 2, [da, db], [sa, sb], s, cfg))
         jobs.append(("burst", 2, [da, db], [sa, sb], burstify(merge_alternate([sa, sb])), cfg))
         jobs.append(("burst", 2, [da, db], [sa, sb], burstify(merge_random(rng, [sa, sb])), cfg))
+        # the same with every byte stream cut into small segments (command lines and replies arrive in interleaved fragments)
+        jobs.append(("burst-segmented", 2, [da, db], [sa, sb], burstify(merge_alternate([sa, sb])), dict(cfg, seg=rng.choice([1, 3, 7]))))
     # drops at command granularity: B crashes / closes at a random point
     for _ in range(200 if thorough else 24):
         ba, bb = rng.choice(bodies), rng.choice(bodies)
@@ -1081,6 +1104,47 @@ def project_atoms(schedule, i):
     return [a for j, a in schedule if j == i]
 
 
+def removable_units(schedule):
+    """indices that can be removed together keeping the schedule well-formed (a send goes with its collect)"""
+    units = []
+    open_send = {}
+    for k, (i, a) in enumerate(schedule):
+        if a["k"] == "send":
+            open_send[i] = k
+        elif a["k"] == "collect":
+            if i in open_send:
+                units.append((open_send.pop(i), k))
+        else:
+            units.append((k,))
+    for i, k in open_send.items():
+        units.append((k,))
+    return units
+
+
+def shrink(n, dirs, schedule, cfg, key, tries=120):
+    """greedy: drop atoms (latest first) while the SAME oracle keeps failing; solo runs are re-derived from the shrunk scripts"""
+    cur = list(schedule)
+    changed = True
+    while changed and tries > 0:
+        changed = False
+        for unit in sorted(removable_units(cur), reverse=True):
+            if tries <= 0:
+                break
+            tries -= 1
+            cand = [x for k, x in enumerate(cur) if k not in unit]
+            try:
+                res = run_impl(n, cand, cfg)
+                solos = [run_impl(1, [(0, a) for a in project_atoms(cand, i)], cfg) for i in range(n)]
+                bad = oracle(n, dirs, cand, cfg, res, solos)
+            except Exception:
+                continue
+            if bad and bad[0][0] == key:
+                cur = cand
+                changed = True
+                break
+    return cur
+
+
 # ---------------------------------------------------------------- one case
 def check_case(ctx, fam, n, dirs, schedule, cfg, mo=None, verbose=False):
     """run the interleaved schedule and the solo runs; oracles; model correspondence.  Returns True when clean."""
@@ -1100,6 +1164,14 @@ def check_case(ctx, fam, n, dirs, schedule, cfg, mo=None, verbose=False):
         ctx.count("outside_hypothesis")
         return True
     for key, what, extra in bad[:1]:
+        if not verbose and len(ctx.violations) < 3:
+            small = shrink(n, dirs, schedule, cfg, key)
+            if len(small) < len(schedule):
+                res2 = run_impl(n, small, cfg)
+                bad2 = oracle(n, dirs, small, cfg, res2, [run_impl(1, [(0, a) for a in project_atoms(small, i)], cfg) for i in range(n)])
+                if bad2 and bad2[0][0] == key:
+                    rep = dict(rep, schedule=[[i, a] for i, a in small], shrunk_from=len(schedule))
+                    key, what, extra = bad2[0]
         ctx.violation(f"property oracle: {key}: {what}", dict(rep, key=key, **extra))
         clean = False
     if verbose:
